@@ -91,8 +91,10 @@ def write_overlay(workdir, spec):
         pdir = os.path.join(REPO, spec["inpkg"])
         for f in glob.glob(os.path.join(pdir, "*_test.go")):
             repl[f] = ""
-        for f in sorted(glob.glob(os.path.join(hdir, spec["src"], "*.go"))):
-            repl[os.path.join(pdir, "zz_verif_" + os.path.basename(f))] = f
+        srcs = spec["src"] if isinstance(spec["src"], list) else [spec["src"]]
+        for src in srcs:
+            for f in sorted(glob.glob(os.path.join(hdir, src, "*.go"))):
+                repl[os.path.join(pdir, "zz_verif_" + os.path.basename(f))] = f
         target = "./" + spec["inpkg"]
     ov = os.path.join(workdir, "overlay.json")
     json.dump({"Replace": repl}, open(ov, "w"), indent=1)
